@@ -332,7 +332,15 @@ fn main() {
         let nr = run.tier(40_000u64, 6_000_000u64);
         run.generate("triangle-random", nr, false, 0.2, |ctx, _idx, rng| {
             let p = |rng: &mut Rng| Point::new(rng.i32r(-100, 100), rng.i32r(-100, 100));
-            let a = p(rng);
+            // one triangle in eight lies far from the origin (beyond 16 bits on one or both axes)
+            let far = |rng: &mut Rng| match rng.below(6) {
+                0 => 32_768 + rng.i32r(-100, 100),
+                1 => -65_536 + rng.i32r(-100, 100),
+                2 => rng.i32r(40_000, 1_000_000),
+                3 => -rng.i32r(40_000, 1_000_000),
+                _ => rng.i32r(-100, 100),
+            };
+            let a = if rng.chance(1, 8) { Point::new(far(rng), far(rng)) } else { p(rng) };
             let near = |rng: &mut Rng, a: Point| Point::new(a.x + rng.i32r(-60, 60), a.y + rng.i32r(-60, 60));
             let v = [a, near(rng, a), near(rng, a)];
             check_triangle(ctx, v);
@@ -360,6 +368,11 @@ fn main() {
             let n = if rng.chance(1, 8) { rng.usizer(7, 14) } else { rng.usizer(0, 6) };
             let mut v: Vec<Point> = Vec::new();
             let mut cur = Point::new(rng.i32r(-30, 30), rng.i32r(-30, 30));
+            if rng.chance(1, 8) {
+                // far from the origin
+                let far = |rng: &mut Rng| if rng.chance(1, 3) { rng.i32r(-30, 30) } else if rng.chance(1, 2) { rng.i32r(32_700, 70_000) } else { -rng.i32r(32_700, 1_000_000) };
+                cur = Point::new(far(rng), far(rng));
+            }
             for _ in 0..n {
                 v.push(cur);
                 cur = match rng.below(8) {
